@@ -151,10 +151,23 @@ class VQ(V):
 
 
 # heap cells ----------------------------------------------------------------
-SORTS = {"str": StrS, "int": IntS, "bool": BoolS, "py": PyVal}
+SORTS = {"str": StrS, "int": IntS, "bool": BoolS, "py": PyVal, "liststr": IntS}
+# immutable symbolic lists of strings identified by an integer (values stored inside symbolic dicts)
+SL_LEN = z3.Function("sl_len", IntS, IntS)
+SL_ARR = z3.Function("sl_arr", IntS, z3.ArraySort(IntS, StrS))
+
+
+class VSList(V):
+    """value of kind liststr before it is given a heap cell"""
+    kind = "liststr"
+
+    def __init__(self, e):
+        self.e = e
 
 
 def wrap(kind, e):
+    if kind == "liststr":
+        return VSList(e)
     return {"str": VStr, "int": VInt, "bool": VBool, "py": VPy}[kind](e)
 
 
@@ -185,6 +198,13 @@ class HObj(object):
 
     def __repr__(self):
         return "HObj<%s>(%s)" % (self.cls, sorted(self.f))
+
+
+class HOpaque(object):
+    """A cell whose content is unknown after havoc (e.g. a list of object references); any read is out of subset."""
+
+    def __repr__(self):
+        return "HOpaque"
 
 
 class HDict(object):
